@@ -1286,7 +1286,8 @@ struct Exec {
         if (s.decoded) {
             derived_prop = "C13";
             derived_tag = "decoded";
-        } else if (ops.caps.static_offsets) {
+        } else if (ops.caps.static_offsets && plan.prop != "C13") {
+            // (in a C13 plan the state before decoding is the baseline)
             derived_prop = "C12";
             derived_tag = "static";
             for (auto& m : mv)
@@ -1693,7 +1694,23 @@ struct Exec {
         if (e.pol < 0 || e.pol >= (int)ps.size())
             return invalid("restart: bad policy");
         auto& s = ps[e.pol];
+        // static offsets are compiled into the program: the new process has
+        // the ones the old one had
+        std::vector<std::pair<int, SlotInfo>> compiled_in;
+        if (s.ops->caps.static_offsets)
+            for (int sl = 0; sl < s.ops->nslots; ++sl) {
+                SlotInfo si;
+                s.ops->slot_info(sl, si);
+                compiled_in.push_back({sl, si});
+            }
         s.ops->reset();
+        for (auto& kv : compiled_in) {
+            auto& si = kv.second;
+            s.ops->set_offsets(
+                kv.first,
+                std::vector<std::size_t>(si.st_slots, si.st_slots + 8),
+                std::vector<std::size_t>(si.st_strides, si.st_strides + 8));
+        }
         std::string why = s.ops->pristine();
         if (!why.empty()) {
             res.poisoned = true;
